@@ -47,8 +47,17 @@ class Project(object):
             for package in sys.modules:
                 modules.add(package.partition('.')[0])
 
-        for p in path:
-            pdir = os.path.join(p, *root.split('.'))
+        if root:
+            # children live only in the directory the package itself resolves to
+            pfile = self._find_module_file(root)[0]
+            if pfile and os.path.basename(pfile).startswith('__init__.'):
+                dirs = [os.path.dirname(pfile)]
+            else:
+                dirs = []
+        else:
+            dirs = path
+
+        for pdir in dirs:
             try:
                 dlist = os.listdir(pdir)
             except OSError:
@@ -95,26 +104,7 @@ class Project(object):
         except KeyError:
             pass
 
-        path = self.get_path()
-        filename = None
-        is_source = False
-        for p in path:
-            mpath = os.path.join(p, *name.split('.'))
-            for s in SUFFIXES:
-                fname = mpath + s
-                if os.path.exists(fname):
-                    filename = fname
-                    is_source = s in SOURCE_SUFFIXES
-                    break
-            else:
-                fname = os.path.join(mpath, '__init__.py')
-                if os.path.exists(fname):
-                    filename = fname
-                    is_source = True
-                    break
-
-            if filename:
-                break
+        filename, is_source = self._find_module_file(name)
 
         module = None  # type: SourceModule | ImportedModule | None
         if not filename:
@@ -133,6 +123,35 @@ class Project(object):
 
         self._module_cache[name] = module
         return module
+
+    def _find_module_file(self, name):
+        # type: (str) -> tuple[str | None, bool]
+        """Locates module file like the import system does
+
+        A submodule is searched only in the directory of its parent package,
+        so a module or package found earlier on the path shadows later ones.
+        """
+        parent, _, tail = name.rpartition('.')
+        if parent:
+            pfile = self._find_module_file(parent)[0]
+            if not pfile or not os.path.basename(pfile).startswith('__init__.'):
+                return None, False
+            path = [os.path.dirname(pfile)]
+        else:
+            path = self.get_path()
+
+        for p in path:
+            mpath = os.path.join(p, tail)
+            for s in SUFFIXES:
+                fname = mpath + s
+                if os.path.exists(fname):
+                    return fname, s in SOURCE_SUFFIXES
+
+            fname = os.path.join(mpath, '__init__.py')
+            if os.path.exists(fname):
+                return fname, True
+
+        return None, False
 
     def norm_package(self, package, filename):
         # type: (str, str) -> str
